@@ -206,6 +206,9 @@ def fences(s: str) -> bool:
     return H.verdict(ok)
 
 
+REF_VARIANTS = [True, False, 1, 0, "true", "no", "maybe", None, 2, 1.0, [], {}, [True], {"value": True}, " YES "]
+
+
 def _json_value(kind, n_items, item_len, rat_len, ref_i, extra_key):
     """Typed variants of what json.loads may return for an LLM plan."""
     n_items = [0, 1, 16, 17][n_items]
@@ -215,7 +218,7 @@ def _json_value(kind, n_items, item_len, rat_len, ref_i, extra_key):
     if kind == 0:
         obj = {"plan": items, "rationale": "r" * rat_len}
     elif kind == 1:
-        obj = {"plan": items, "rationale": "r" * rat_len, "reflection": [True, False, 1, 0, "true", "no", "maybe", None, 2, 1.0][ref_i]}
+        obj = {"plan": items, "rationale": "r" * rat_len, "reflection": copy.deepcopy(REF_VARIANTS[ref_i])}
     elif kind == 2:
         obj = {"plan": items + [7], "rationale": "r" * rat_len}
     elif kind == 3:
@@ -238,12 +241,12 @@ def _json_value(kind, n_items, item_len, rat_len, ref_i, extra_key):
 @H.ob(model="none", quick=300, thorough=600,
       targets=("clematis/engine/policy/sanitize.py:parse_and_validate", "clematis/engine/policy/sanitize.py:_coerce_bool"),
       stubs=("sanitize.json.loads -> returns a typed JSON value built from symbolic sizes (list length, item length, rationale length, reflection variant, extra key), or raises",),
-      bounds="plan length, item length and rationale length by symbolic index over the boundary values {0,1,16,17} / {0,1,200,201} / {0,1,2000,2001} of the documented limits; 9 value shapes; reflection variants incl. non-boolean; unknown key flag; json.loads may raise",
+      bounds="plan length, item length and rationale length by symbolic index over the boundary values {0,1,16,17} / {0,1,200,201} / {0,1,2000,2001} of the documented limits; 9 value shapes; 15 reflection variants (booleans, ints, words, null, float, JSON arrays and objects); unknown key flag; json.loads may raise",
       split={"kind": [0, 1, 2, 3, 4, 5, 6, 7, 8]},
       note="C13.d post-parse validation: the result is (False, reason string) or (True, object within the documented limits with exactly plan/rationale/reflection); no input makes it raise")
 def validate_plan(kind: int, n_items: int, item_len: int, rat_len: int, ref_i: int, extra_key: bool, raises: bool) -> bool:
     """
-    pre: 0 <= kind <= 8 and 0 <= n_items <= 3 and 0 <= item_len <= 3 and 0 <= rat_len <= 3 and 0 <= ref_i <= 9
+    pre: 0 <= kind <= 8 and 0 <= n_items <= 3 and 0 <= item_len <= 3 and 0 <= rat_len <= 3 and 0 <= ref_i <= 14
     post: _
     """
     val = _json_value(kind, n_items, item_len, rat_len, ref_i, extra_key)
